@@ -65,6 +65,8 @@ MUTATIONS = [
  ('m45', 'C12', 'src/sampler.rs', r's/                                for chain in chains\.iter\(\) \{\n                                    \/\/ This failes if the thread is done\.\n                                    \/\/ We just want to ignore those threads\.\n                                    let _ = chain\.pause\(\);/                                for chain in chains.iter().skip(1) {\n                                    \/\/ This failes if the thread is done.\n                                    \/\/ We just want to ignore those threads.\n                                    let _ = chain.pause();/', 'pause() is answered although the first chain was never told to pause'),
  ('m46', 'C12', 'src/sampler.rs', r's/let _ = chain\.resume\(\);/let _ = chain.pause();/', 'Continue sends Pause to the chains'),
  ('m47', 'C12', 'src/sampler.rs', r's/                    draw \+= 1;\n                    if draw == draws \{\n                        break;\n                    \}\n\n                    msg = stop_marker_rx\.try_recv\(\);/                    draw += 1;\n                    if draw == draws {\n                        break;\n                    }\n                    if draw % 2 == 0 {\n                        msg = stop_marker_rx.try_recv();\n                    }/', 'the command channel is polled only after every second draw'),
+ ('m48', 'C15', 'src/storage/zarr/async_impl.rs', r's/while writes_guard\.len\(\) >= max_queued_writes \{/while writes_guard.len() > max_queued_writes {/', 'async write queue may hold one write more than max_queued_writes'),
+ ('m49', 'C15', 'src/storage/zarr/async_impl.rs', r's/                out\.context\("Failed to await previous trace write operation"\)\?\n                    \.context\("Chunk write operation failed"\)\?;/                let _ = out;/', 'queue_write drops the result of an earlier write it reaps'),
  ('e01', 'C18', 'src/mclmc.rs', r's/&& self.draw_count == self.switch_draw/&& self.draw_count >= self.switch_draw/', 'EQUIVALENT on reachable states: must not be flagged'),
  ('e02', 'C08', 'src/math/cpu_math.rs', r's/\*mean \+= diff \* diff_scale;\n                \*var \+= diff \* diff;/*mean += diff * diff_scale;\n                *var += diff * (x - *mean);/', 'EQUIVALENT for the property (ratio of variances unchanged): must not be flagged'),
 ]
